@@ -125,7 +125,13 @@ def run_js_cases(res, cases, diagnose=None, check_header=True, tag='js'):
         if exp is None:
             res.feat('js_not_neutral_skipped')
             continue
-        text = refql.render(q, 'js')
+        # the clause separator rotates over the cases (runs of blanks, tab + blank, line break): legal spellings of the same query
+        nth = len(batch) % 12
+        if nth in (3, 7, 11):
+            cn = refql.clause_names(q)
+            text = refql.render(q, 'js', refql.Spelling(sep={3: '   ', 7: '\t ', 11: '\n'}[nth], clause_perm=(tuple(reversed(cn)) if nth != 11 else tuple(cn))))    # and the clauses in reverse order (ORDER BY ... DESC is then followed by another clause)
+        else:
+            text = refql.render(q, 'js')
         c = {'op': 'query', 'query': text, 'input': A}
         if B is not None:
             c['join'] = B
